@@ -210,6 +210,17 @@ def oracle_layer(ctx, lk, conn, entries, options):
             if o is not None and r.flag == 'S' and r.date != o - datetime.timedelta(days=1):
                 ctx.record_violation('summary-date', '%s: %r' % (q, r), payload=meta)
                 break
+        # the clauses apply one after the other: what OPEN puts in front of the window (opening balances and the
+        # conversions carried forward, dated the day before) is what OPEN alone puts there, whatever follows
+        if o is not None and (c is not None or clear):
+            q_open = 'SELECT %s FROM %s' % (cols, from_text(o, None, False))
+            alone = [Row(*r) for r in conn.execute(q_open).fetchall()]
+            head = sorted((r.flag, r.account, str(r.position)) for r in rows if r.date < o)
+            head_alone = sorted((r.flag, r.account, str(r.position)) for r in alone if r.date < o)
+            ctx.count('oracle:open-then-rest')
+            if head != head_alone:
+                ctx.record_violation('open-depends-on-close', '%s: rows before the window %r, with OPEN alone %r' % (
+                    q, [x for x in head if x not in head_alone][:4], [x for x in head_alone if x not in head][:4]), payload=meta)
         # balance sheet
         got_bs = inv_of(rows, lambda r: root(r.account) in bs_roots)
         want_bs = inv_of(rows0, lambda r: root(r.account) in bs_roots and (e is None or r.date < e))
